@@ -145,6 +145,59 @@ def native_search():
     n += 1
     if r:
         return {"scenario": "connect; 600 broker messages before the first read; read them all; disconnect", "observed": r}, n
+
+    async def waiting_reader():
+        # the listener's normal state: a read is already waiting when the broker delivers a message, and when it fails
+        from aiomqtt import MqttError
+        feed = asyncio.Queue()
+
+        class Live(FakeClient):
+            @property
+            def messages(self):
+                async def gen():
+                    while True:
+                        kind, x = await feed.get()
+                        if kind == "err":
+                            raise x
+                        yield x
+                return gen()
+        t = mq.MQTTClient("h", in_prefix="in/p")
+        fake = Live([])
+        mq.AsyncioClient = lambda *a, **k_: fake
+        await t.connect()
+        rd = asyncio.create_task(t.read())
+        await asyncio.sleep(0.01)
+        feed.put_nowait(("msg", Msg("in/p/1/2/1/0/0", b"20.5;C")))
+        try:
+            got = await asyncio.wait_for(rd, 1)
+        except BaseException as e:  # noqa: BLE001
+            return f"a read that was waiting when a message arrived: {type(e).__name__}"
+        if got != "1;2;1;0;0;20.5;C":
+            return f"a read that was waiting when a message arrived returned {got!r}"
+        rd = asyncio.create_task(t.read())
+        await asyncio.sleep(0.01)
+        feed.put_nowait(("err", MqttError("Disconnected during message iteration")))
+        try:
+            got = await asyncio.wait_for(rd, 1)
+            out = f"returned {got!r}"
+        except TransportError:
+            out = None
+        except asyncio.TimeoutError:
+            out = "is still blocked 1 s after the broker error (the transport went deaf silently)"
+        except BaseException as e:  # noqa: BLE001
+            out = f"raised {type(e).__name__}"
+        try:
+            await t.disconnect()
+        except BaseException as e:  # noqa: BLE001
+            return f"disconnect after a broker error raised {type(e).__name__}"
+        return f"a read that was waiting when the broker failed {out}" if out else None
+    try:
+        r = asyncio.run(waiting_reader())
+    finally:
+        mq.AsyncioClient = orig
+    n += 1
+    if r:
+        return {"scenario": "connect; read waiting; message; read waiting; broker error; disconnect", "observed": r}, n
     return None, n
 
 
@@ -155,7 +208,7 @@ def replay(world, ob):
 
 def bounded(world, tier, seed, rep):
     f, n = native_search()
-    return {"label": "bounded", "scope": "6 encoded lines x 2 out-prefixes, 2 in-prefixes, one connect/receive(undecodable, good)/read/disconnect scenario with a fake aiomqtt client",
+    return {"label": "bounded", "scope": "6 encoded lines x 2 out-prefixes, 2 in-prefixes, and three scenarios with a fake aiomqtt client: undecodable then good payload; a burst of 600 messages before the first read; a read already waiting when a message and then a broker error arrive",
             "evaluations": n, "native_failure": f}
 
 
